@@ -294,7 +294,9 @@ func c11Worker(args []string) {
 						ownRunsBy[g]++
 					}
 					// (every script also goes through a few calls of its own functions)
-					script = fmt.Sprintf("function idf(x) { return x; } function add3(a, b, cc) { return idf(a) + idf(b) + cc; } if (add3(%d, 2, idf(3)) != %d) { return 0; } ", k, k+5) + script
+					script = fmt.Sprintf("function idf(x) { return x; } function add3(a, b, cc) { return idf(a) + idf(b) + cc; } if (add3(%d, 2, idf(3)) != %d) { return 0; } ", k, k+5) +
+						// ... and through the built-ins that work on strings and arrays, with this record's own word
+						"if (min(Word, \"zzzz\") != Word || max(Word, \"\") != Word || min(\"a\", Word) != \"a\" || max(\"a\" + Word, Word) != Word || join(sort([Word, \"a\" + Word]), \",\") != \"a\" + Word + \",\" + Word || lower(upper(Word)) != Word || trim(\" \" + Word + \" \") != Word || reverse([1, Word])[0] != Word || !(Word in [1, Word]) || len(split(Word + \",x\", \",\")) != 2 || sprintf(\"%s|%d\", Word, 7) != Word + \"|7\" || keys({Word: 1})[0] != Word) { return 0; } " + script
 					e := evalfilter.New(script)
 					e.SetVariable("c", &object.Integer{Value: 0})
 					e.SetVariable("HostHash", hostHash)
